@@ -4,13 +4,15 @@ CONSTANTS MaxWraps = 4
           MaxCalls = 4
           Wide = FALSE
           FixedCode = TRUE
-          Modes = {"bind", "heap", "memo", "chain", "exc", "args", "deco"}
+          Modes = {"bind", "heap", "memo", "chain", "exc", "args", "deco", "order"}
           MaxExcChain = 2
           MaxBindings = 2
           MaxArgSteps = 3
           MaxDecoObjs = 3
           MaxDecoCalls = 2
+          MaxOrdChain = 2
           TwoDecos = FALSE
 INIT Init
 NEXT NextGen
 INVARIANT MemoIsLaw
+INVARIANT MemoScalesMC
